@@ -1,5 +1,6 @@
 import Emg3dVerif.Model.Num
 import Emg3dVerif.Drv.C05
+import Emg3dVerif.Drv.C02
 open Emg
 
 def handle (ws : List String) : String :=
@@ -8,6 +9,7 @@ def handle (ws : List String) : String :=
   | w :: _ =>
     let r : Option String :=
       if w == "mg" || w == "maxlevel" || w == "scdir" || w == "lrdir" || w == "coarsen" then Drv05.handle ws
+      else if w == "amat" || w == "fit" || w == "eta" || w == "zeta" then Drv02.handle ws
       else none
     r.getD "bad-op"
 
